@@ -433,7 +433,9 @@ def run_history(s, init, mode, ops, judge_from=None):
 def run_case(case):
     s = phr.session(DBNAME, reload=True)
     res = run_history(s, case["init"], case["mode"], case["ops"], case.get("judge_from"))
-    out = {"case": case, "problems": [], "ops": res["nrun"], "script": s.d.script(), "diagnostics": res["diags"][:3]}
+    out = {"case": case, "problems": [], "ops": res["nrun"], "diagnostics": res["diags"][:3]}
+    if res["problems"]:
+        out["script"] = s.d.script()          # the replay artefact; only kept for candidates (memory of the explorer)
     seen = set()
     for fp, what in res["problems"]:
         if fp not in seen:
@@ -465,7 +467,7 @@ def explore_level(cases, ev, findings, pool, deadline, stats):
     results = []
     complete = True
     for res in pool.map(run_case, cases, 4, ordered=True):
-        results.append(res)
+        results.append({"case": res["case"], "not_completed": res.get("not_completed", False), "key": res.get("key")})
         ev.traces += 1
         ev.transitions += res["ops"]
         if res.get("not_completed"):
